@@ -179,7 +179,10 @@ fn resident_bytes() -> u64 {
 }
 
 pub fn quiet_panics() {
-    std::panic::set_hook(Box::new(|_| {}));
+    // VH_LOUD=1 keeps the messages (debugging the harness itself)
+    if std::env::var("VH_LOUD").is_err() {
+        std::panic::set_hook(Box::new(|_| {}));
+    }
 }
 
 // ------------------------------------------------------------------ probe pieces
